@@ -9,6 +9,7 @@ import (
 	"io/fs"
 	"io/ioutil"
 	"os"
+	"path/filepath"
 	"reflect"
 	"runtime"
 	"strings"
@@ -262,10 +263,18 @@ func writeReader(path string, r io.Reader, perms fs.FileMode, compress bool) (er
 		path = fmt.Sprintf("%s%s", path, compressedExtension)
 	}
 
-	if out, err = os.OpenFile(path, os.O_CREATE|os.O_TRUNC|os.O_RDWR, perms); err != nil {
+	// we write to a temporary file which replaces path once complete, so
+	// that path never holds a truncated or partially written content
+	tmp := tmpPath(path)
+	if out, err = os.OpenFile(tmp, os.O_CREATE|os.O_TRUNC|os.O_RDWR, perms); err != nil {
 		return
 	}
-	defer out.Close()
+	defer func() {
+		out.Close()
+		if err != nil {
+			os.Remove(tmp)
+		}
+	}()
 
 	// default value for writer
 	w = out
@@ -280,6 +289,26 @@ func writeReader(path string, r io.Reader, perms fs.FileMode, compress bool) (er
 		return
 	}
 
-	return w.Close()
+	if err = w.Close(); err != nil {
+		return
+	}
 
+	return os.Rename(tmp, path)
+}
+
+// tmpPath returns the path of the temporary file used to write path.
+// Its name starts with a dot so it is never taken for an object file.
+func tmpPath(path string) string {
+	dir, name := filepath.Split(path)
+	return filepath.Join(dir, fmt.Sprintf(".%s.tmp", name))
+}
+
+// writeFileAtomic writes data to a temporary file and renames it to path
+func writeFileAtomic(path string, data []byte, perms fs.FileMode) (err error) {
+	tmp := tmpPath(path)
+	if err = ioutil.WriteFile(tmp, data, perms); err != nil {
+		os.Remove(tmp)
+		return
+	}
+	return os.Rename(tmp, path)
 }
